@@ -183,14 +183,22 @@ def in_tolerance_band(kind, a, b):
 
 @contract('regions/core/core.py::Region.__eq__', props=['C16'])
 class region_equality_other_types:
-    cases = {'other_class': {'what': 'other_class'}, 'number': {'what': 'number'}, 'none': {'what': 'none'}}
+    """a region never equals a value of another class - not even a region of another class whose parameter names and values,
+    meta and visual are all the same (ellipse / rectangle, ellipse annulus / rectangle annulus), in either order"""
+    cases = {'other_class': {'what': 'other_class'}, 'number': {'what': 'number'}, 'none': {'what': 'none'},
+             'same_fields_ellipse_rectangle': {'what': 'twin'}, 'same_fields_annuli': {'what': 'twin_annulus'}}
 
     def setup(B, what='other_class'):
+        if what == 'twin':
+            return dict(a=region(B, 'ellipse', 'a'), other=region(B, 'rectangle', 'a'))
+        if what == 'twin_annulus':
+            return dict(a=region(B, 'ellipse_annulus', 'a'), other=region(B, 'rectangle_annulus', 'a'))
         a = region(B, 'circle', 'a')
         other = region(B, 'point', 'b') if what == 'other_class' else (3 if what == 'number' else None)
         return dict(a=a, other=other)
-    call = lambda a, other: (a == other, a != other)
-    post = {'unequal': lambda result: (not result[0]) and result[1]}
+    call = lambda a, other: (a == other, a != other, other == a, other != a)
+    post = {'unequal': lambda result: (not result[0]) and result[1],
+            'unequal_in_the_other_order': lambda result: (not result[2]) and result[3]}
 
 
 def fresh_and_equal(kind, self, result):
